@@ -540,3 +540,75 @@ def name_table_gate_rule(F, R, rid):
                "the JIT's name table has handlers for %s only for some argument counts and the lookup panics otherwise, but "
                "the gate in compile_bytecode does not check %s: (define (f a b c) (%s a b c)) aborts the host when f is "
                "JIT-compiled" % (v, v, v.lower()), table.loc(), sample=False)
+
+
+def branch_facts_rule(F, R, rid):
+    R.rule(rid, "what the translator learns inside one arm of an `if` does not leak: every fact table of FunctionTranslator — a "
+                "HashMap field whose values are Properties or InferredType, i.e. what later selects unchecked or type-specialised "
+                "handlers — is saved (cloned) in translate_if_else_value before the then-arm is translated, and written back "
+                "between the two arm translations and again after the else-arm (sibling agreement with shadow_stack / "
+                "let_var_stack). Otherwise a fact established on one path (car succeeded => non-empty list) licenses an "
+                "unchecked handler on a path where it does not hold: undefined behaviour")
+    adt = F.adt("FunctionTranslator")
+    tables = []
+    for v in adt["variants"]:
+        for f in v["fields"]:
+            if re.search(r"HashMap<", f["ty"]) and re.search(r"\b(Properties|InferredType)\b", f["ty"]):
+                tables.append(f["name"])
+    if len(tables) < 2:
+        raise CheckError("anchor lost: fact tables of FunctionTranslator (%s)" % tables)
+    fn = F.one(r"\{impl FunctionTranslator\}::translate_if_else_value$")
+    arms = sorted(fn.call_blocks(r"\{impl FunctionTranslator\}::stack_to_ssa$"))
+    if len(arms) < 2:
+        raise CheckError("anchor lost: translate_if_else_value no longer translates two arms")
+    first, second = arms[0], arms[1]
+    dom = fn.dominators()
+    for t in sorted(tables):
+        reads = [i for i, _, e in fn.events("fld") if e[1] == "FunctionTranslator" and e[2] == t and e[3][0] in "rb"]
+        writes = [i for i, _, e in fn.events("fld") if e[1] == "FunctionTranslator" and e[2] == t and e[3][0] in "wd"]
+        saved = any(r in dom[first] for r in reads)
+        between = any(first in dom[w] and w in dom[second] for w in writes)
+        after = any(second in dom[w] for w in writes)
+        R.inst(rid, "FunctionTranslator.%s is branch-local (saved, restored for the else arm and after the join)" % t,
+               saved and between and after,
+               "translate_if_else_value does not save FunctionTranslator.%s before the then-arm and restore it %s: facts "
+               "recorded while translating one arm (e.g. `this register holds a non-empty list` after a car) are still "
+               "believed on the other arm / after the join, where an unchecked handler is then emitted — "
+               "(define (f v flag) (if flag (car v) 0) (car v)) with v = 5 reaches unreachable_unchecked" % (
+                   t, "before the else-arm" if not between else "after the else-arm" if not after else "(not saved)"),
+               fn.loc(), sample={"saved": saved, "between": between, "after": after})
+
+
+def assigned_local_rule(F, R, rid):
+    R.rule(rid, "a local that is assigned loses its facts: the translator's arm for SETLOCAL removes the local's entry from "
+                "every fact table (HashMap fields of FunctionTranslator with Properties / InferredType values) — otherwise "
+                "`(car v) (set! v 5) (car v)` emits the unchecked car for the new value")
+    adt = F.adt("FunctionTranslator")
+    tables = [f["name"] for v in adt["variants"] for f in v["fields"]
+              if re.search(r"HashMap<", f["ty"]) and re.search(r"\b(Properties|InferredType)\b", f["ty"])]
+    best = None
+    for n, fn in F.fns.items():
+        if "jit2::cgen::{impl FunctionTranslator}::stack_to_ssa" in n and not n.endswith("}"):
+            for sb in lib.enum_switches(fn, "OpCode"):
+                k = len(fn.blocks[sb]["targets"])
+                if best is None or k > best[0]:
+                    best = (k, fn, sb)
+    if best is None:
+        raise CheckError("anchor lost: translator opcode match")
+    _, tr, sb = best
+    am = lib.arm_map(tr, sb)
+    if "SETLOCAL" not in am or am["SETLOCAL"] == am.get("_"):
+        R.inst(rid, "translator has an arm for SETLOCAL", True, sample={"note": "no SETLOCAL arm: assigned locals are not compiled"},
+               nontrivial=False)
+        return
+    region = tr.reachable_from([am["SETLOCAL"]], avoid=set(tr.dominators()[sb]))
+    for t in sorted(tables):
+        touched = [b for b in region for e in tr.blocks[b]["e"] if e[0] == "fld" and e[1] == "FunctionTranslator" and e[2] == t
+                   and e[3][0] in "mw"]
+        removes = [b for b in region if tr.blocks[b]["k"] == "call" and re.search(r"HashMap<K,V,S,A>\}::remove$", tr.blocks[b]["callee"])]
+        ok = bool(touched) and len(removes) >= 1 and any(
+            any(r in tr.reachable_from([x]) for r in removes) for x in touched)
+        R.inst(rid, "SETLOCAL arm forgets FunctionTranslator.%s of the assigned local" % t, ok,
+               "the translator's SETLOCAL arm does not remove the assigned local from FunctionTranslator.%s: a fact about the "
+               "old value (non-empty list, int) is applied to the new one, and an unchecked / type-specialised handler is "
+               "emitted for it" % t, tr.loc(), sample=True)
